@@ -34,9 +34,8 @@ public:
     return std::regex_match(str.data(), reg_key_);
 #else
     // TBD - Support regex match for GCC4.8
-    OTEL_INTERNAL_LOG_ERROR(
-        "PatternPredicate::Match - failed. std::regex not fully supported for this compiler.");
-    return false;  // not supported
+    // Patterns are not supported without std::regex: the selector is compared as an exact name.
+    return str == opentelemetry::nostd::string_view{reg_key_};
 #endif
   }
 
